@@ -1,11 +1,11 @@
 #!/bin/bash
-# Applies each behaviour-preserving refactoring under /tmp/benign_out to a scratch copy of /repo and runs all quick
+# Applies each behaviour-preserving refactoring under ${BENIGN_DIR:-/verif/benign} to a scratch copy of /repo and runs all quick
 # checks; any VIOLATION is a false alarm of the machinery. usage: benign_try.sh [ids...]
 HERE=/verif
 export PATH=/opt/veriftools/go1.26.8/bin:$PATH GOTOOLCHAIN=local GOPROXY=off GOSUMDB=off GOWORK=off
-ids="$@"; [ -z "$ids" ] && ids=$(ls /tmp/benign_out)
+ids="$@"; [ -z "$ids" ] && ids=$(ls ${BENIGN_DIR:-/verif/benign})
 for id in $ids; do
-  d=/tmp/benign_out/$id; [ -s $d/patch.diff ] || continue
+  d=${BENIGN_DIR:-/verif/benign}/$id; [ -s $d/patch.diff ] || continue
   grep -q "^$id " /tmp/benign_seen 2>/dev/null && [ -z "$FORCE" ] && continue
   S=$(mktemp -d /tmp/zv-benign.XXXXXX); mkdir -p $S/tree $S/verif; cp $HERE/known_findings.json $S/verif/
   (cd /repo && tar --exclude=.git -cf - .) | (cd $S/tree && tar -xf -)
